@@ -31,6 +31,10 @@
 (* little-endian sequence of base-2^15 limbs (operators Wxxx).              *)
 EXTENDS Mon
 
+\* a DRIFT clause is recorded once per run of the monitor: drift must never crowd real violations out of the
+\* (capped) violation set
+Once(m, c, bad) == bad /\ ~\E v \in m.viol : v.clause = c
+
 \* ---------------------------------------------------------------- wide naturals
 Base == 32768
 RECURSIVE WNorm(_, _)
@@ -112,7 +116,7 @@ HasBudgetStep(m, e, ln) ==
      !.wake   = <<>>,
      !.envbad = m.envbad \/ EnvTime(m, e.t),
      !.viol   = VAll(m.viol, e, ln, << <<"WakeSufficient", ~m.envbad /\ ~EnvTime(m, e.t) /\ bad>>,
-                                       <<"DRIFT_EnvTime", EnvTime(m, e.t)>> >>)]
+                                       <<"DRIFT_EnvTime", Once(m, "DRIFT_EnvTime", EnvTime(m, e.t))>> >>)]
 
 \* TimeUntilSend() = T: the loop may wake up at any t >= T and must then find budget
 UntilStep(m, e, ln) ==
@@ -123,7 +127,7 @@ SendStep(m, e, ln) ==
       envP   == e.paced /\ (~m.grant \/ e.size > m.mds \/ e.size <= 0)
       m1     == [Tick(m, e.t) EXCEPT !.grant = FALSE, !.wake = <<>>, !.envbad = m.envbad \/ envT \/ envP]
   IN IF ~e.paced \/ envT \/ envP THEN
-        [m1 EXCEPT !.viol = VAll(m.viol, e, ln, << <<"DRIFT_EnvTime", envT>>, <<"DRIFT_EnvPaced", envP>> >>)]
+        [m1 EXCEPT !.viol = VAll(m.viol, e, ln, << <<"DRIFT_EnvTime", Once(m, "DRIFT_EnvTime", envT)>>, <<"DRIFT_EnvPaced", Once(m, "DRIFT_EnvPaced", envP)>> >>)]
      ELSE
         LET depth == WAdd(m.slack, m.b1)
             acc   == WMul(m.bps5, TDiff(m.cfg, m.tl, e.t))
@@ -135,7 +139,7 @@ SendStep(m, e, ln) ==
         IN [m1 EXCEPT !.lev = lev2, !.tl = e.t,
                       !.viol = VAll(m.viol, e, ln,
                          << <<"RateBound", ~m.envbad /\ over>>,
-                            <<"DRIFT_RateNominal", ~over /\ ~WLeq(m.slack, lev2)>> >>)]
+                            <<"DRIFT_RateNominal", Once(m, "DRIFT_RateNominal", ~over /\ ~WLeq(m.slack, lev2))>> >>)]
 
 \* expected factor (as floor(f * 2^16)) for the batches with sec >= cur - k
 Floor16(a, n) ==      \* floor(a * 2^16 / n) for 0 <= a <= n < 2^30 by long division
@@ -171,12 +175,12 @@ AckStep(m, e, ln) ==
         !.viol = VAll(m.viol, e, ln,
           << <<"AckRateRange", ~e.ge08 \/ ~e.le1 \/ e.rate16 < RateMin \/ e.rate16 > RateOne>>,
              <<"AckRateValue", ~envbad /\ e.rate16 # expIn /\ e.rate16 # expEx>>,
-             <<"DRIFT_AckWindow", ~envbad /\ e.rate16 # expIn /\ e.rate16 = expEx>>,
-             <<"DRIFT_EnvTime", envT>>, <<"DRIFT_EnvCounts", envC>> >>)]
+             <<"DRIFT_AckWindow", Once(m, "DRIFT_AckWindow", ~envbad /\ e.rate16 # expIn /\ e.rate16 = expEx)>>,
+             <<"DRIFT_EnvTime", Once(m, "DRIFT_EnvTime", envT)>>, <<"DRIFT_EnvCounts", Once(m, "DRIFT_EnvCounts", envC)>> >>)]
 
 \* the datagram size may move either way under Brutal (QUIC may start below Brutal's own initial size)
 SetMDSStep(m, e, ln) ==
-  IF e.mds < 1 THEN [m EXCEPT !.envbad = TRUE, !.viol = V(m.viol, e, ln, "DRIFT_EnvMDS", TRUE)]
+  IF e.mds < 1 THEN [m EXCEPT !.envbad = TRUE, !.viol = V(m.viol, e, ln, "DRIFT_EnvMDS", Once(m, "DRIFT_EnvMDS", TRUE))]
   ELSE [m EXCEPT !.mds = e.mds, !.wake = <<>>, !.grant = FALSE, !.b1 = Burst(m.cfg, m.bps5, m.u4, e.mds)]
 
 MonStep(m, e, ln) ==
